@@ -562,6 +562,11 @@ def _walk_list(repo, caller, stmts, known, caller_names, stack, stats):
     for s in stmts:
         if isinstance(s, (ast.If, ast.While)) and len(stack) <= MAX_DEPTH:
             s.test = _PredInliner(repo, caller, known, stats).visit(s.test)
+        elif isinstance(s, (ast.Assign, ast.Expr, ast.Return, ast.AugAssign)) and len(stack) <= MAX_DEPTH:
+            # the filters of comprehensions are conditions too: `{k: v for k, v in items if _accepts(k)}`
+            for w in ast.walk(s):
+                if isinstance(w, ast.comprehension) and w.ifs:
+                    w.ifs = [_PredInliner(repo, caller, known, stats).visit(t) for t in w.ifs]
         rep = _expand(repo, caller, s, known, caller_names, stack, stats)
         if rep is None:
             rep = _thread_if(repo, caller, s, known, caller_names, stack, stats)
